@@ -39,6 +39,7 @@ class _CondGen:
         self.new_zones = iter([('zc1', 0x500, 0x50f), ('zc2', 0x600, 0x60f), ('zc3', 0x700, 0x70f)])
         self.created = []
         self.files = files
+        self.risky = 1 if rng.random() < 0.35 else 0
         self.body_syms = ['OPT_A', 'OPT_B', 'OPT_C', 'OPT_D', 'WITH_X', 'WITH_Y']
         self.defined = set()
 
@@ -78,6 +79,10 @@ class _CondGen:
                     out.append(self.data())
             elif r < 0.82 and depth > 0:
                 out += self.chain(depth - 1)
+            elif r < 0.84 and self.risky:
+                # an include that cannot be resolved: fatal in a selected branch, nothing at all in an unselected one
+                self.risky -= 1
+                out.append(['include', None, 'no_such_file.asm'])
             elif r < 0.86 and self.files is not None and len(self.files) < 3:
                 idx = len(self.files)
                 name = f'cinc{idx}.asm'
@@ -246,8 +251,15 @@ def gen_label_scenario(rng, tier='quick'):
         return ['fill', num(2), ('lab', name)]
     globals_ = ['first', 'second', '_third', 'fourth', '_fifth']
     rng.shuffle(globals_)
+    at = [cfg['origin'] + 0x40]
     for g in globals_[:rng.randint(2, 5)]:
         st.append(['label', g])
+        if rng.random() < 0.2:
+            # an origin (possibly on the label's own line) ends the region the label has just opened
+            at[0] += 0x20
+            st.append(['org', num(at[0]), None])
+            if rng.random() < 0.5:
+                st.append(['label', g + '_b'])          # a new region after the origin: what follows is fine again
         loc = rng.choice(['.t', '.x'])
         order = rng.random()
         if order < 0.45:
